@@ -34,11 +34,26 @@ def known_findings(pid):
     return out
 
 
+# components that are run a second time with the Go race detector compiled in (in-process, concurrent, cheap)
+RACE_COMPONENTS = {"gen", "arpcache", "proc", "pipeline", "live", "engine", "cancel", "recv", "exitdelay", "limiter",
+                   "socks", "json"}
+
+
 def replay(ctx, cfg, path):
     """re-run one recorded case on the real code and on the model"""
     rec = json.load(open(path if os.path.isabs(path) else os.path.join(VERIF, path)))
     print(json.dumps(rec, indent=1)[:4000])
     d = rec.get("detail", {})
+    if d.get("race"):
+        import check
+        check.with_lock(lambda: check.build_tools(ctx))
+        n0 = len(ctx.violations)
+        check.race_pass(ctx, d["component"])
+        if len(ctx.violations) > n0:
+            print("VIOLATION property=%s replay=%s" % (ctx.pid, path))
+            return 1
+        print("no race reported this time (the detector samples schedules; the recorded report stands as the witness)")
+        return 0
     if "case" in d and "component" in d:
         import check
         check.with_lock(lambda: check.build_tools(ctx))
@@ -220,7 +235,7 @@ PROPS = {
     },
     "C19": {
         "modules": ["SxVerif.Props.C19"],
-        "components": ["live"],
+        "components": ["live", "pipeline", "gen"],
         "trusted_base": [
             "modelled, not verified: Go channel/select/timer semantics as the small-step process of Model/Live.lean (a goroutine parked in a select is woken by the first case that fires; both-ready selects choose arbitrarily; receive on a nil channel blocks; time.After(0) is ready at once); arming the rescan timer and polling the select is one atomic step",
             "the delegate as `passes : Nat -> Option (List Request)` plus `drop` events after a cancel (its own ctx-guarded sends); the consumer of `out` as the scheduler (a slow consumer = the goroutine is not scheduled)",
@@ -248,7 +263,7 @@ PROPS = {
     },
     "C01": {
         "modules": ["SxVerif.Props.C01"],
-        "components": ["gen", "iter", "e2e", "e2ebig"],
+        "components": ["gen", "iter", "e2e", "e2ebig", "live"],
         "search": search_c01,
         "trusted_base": [
             "modelled, not verified: generators as the list they send before closing (channel plumbing is M-conc, C07/C08); cidranger as list membership; net.ParseIP / easyjson / bufio as a line classifier; os.Stdin through the buffering opener as a constant file",
@@ -264,7 +279,7 @@ PROPS = {
     },
     "C02": {
         "modules": ["SxVerif.Props.C02"],
-        "components": ["netparse", "gen", "parse", "e2e", "e2eapp", "e2erefuse"],
+        "components": ["netparse", "gen", "parse", "e2e", "e2eapp", "e2erefuse", "fill", "e2efill"],
         "trusted_base": [
             "modelled, not verified: net.ParseCIDR / netip.ParseAddr for colon-free input (go1.23 parseIPv4Fields, dtoi) as Model/Net.lean; IPv6 parsing is not modelled at all (refused up front by the colon test)",
             "cidranger PCTrie as list membership after To4 normalisation",
@@ -275,7 +290,7 @@ PROPS = {
     },
     "C06": {
         "modules": ["SxVerif.Props.C06"],
-        "components": ["proc", "e2ereply", "e2e"],
+        "components": ["proc", "e2ereply", "e2e", "engine"],
         "trusted_base": [
             "modelled, not verified: gopacket layers.{Ethernet,IPv4,TCP,ICMPv4,ARP}.DecodeFromBytes, NextLayerType, LayerPayload and the DecodingLayerParser loop with IgnoreUnsupported and panicToError (Model/Frame.lean), incl. uint8 wrap-around in the ARP decoder and the slice-capacity = length assumption for captured frames",
             "macs.ValidMACPrefixMap (vendor lookup) is opaque",
@@ -286,7 +301,7 @@ PROPS = {
     },
     "C05": {
         "modules": ["SxVerif.Props.C05"],
-        "components": ["fill", "iface", "parse", "pipeline", "e2efill"],
+        "components": ["fill", "iface", "parse", "pipeline", "e2efill", "gen", "arpcache"],
         "trusted_base": [
             "modelled, not verified: gopacket layers.{Ethernet,IPv4,TCP,UDP,ICMPv4,ARP}.SerializeTo, gopacket.Payload, SerializeLayers order, checksum / tcpipChecksum / pseudoheaderChecksum, Ethernet padding to 60 bytes, net.IP.To4 (Model/Fill.lean); validated byte for byte against the real fillers on every run, not proved",
             "math/rand draws are parameters of the model; their ranges are regenerated from the four Fill bodies by sxfacts (Generated/Fill.lean, theorem C05_draws); rand.Intn(n) returns a value in [0, n)",
@@ -413,7 +428,7 @@ PROPS = {
     },
     "C17": {
         "modules": ["SxVerif.Props.C17"],
-        "components": ["iface"],
+        "components": ["iface", "e2efill"],
         "trusted_base": [
             "modelled, not verified: net.Interfaces / Interface.Addrs / net.InterfaceByName / InterfaceByIndex and netlink.RouteList(nil, FAMILY_V4) (main table) as the snapshot lists of Model/Iface.lean; net.IP.To4, IP.Mask, CIDRMask and IPNet.Contains on IPv4 entries as byte lists (Model/Iface.lean), validated by running the real code in private network namespaces",
             "the harness reads the snapshot with the same two sources the code uses (Go runtime + vishvananda/netlink); that they report the kernel state faithfully is assumed (snapshot taken before and after the real code ran, case kept only if unchanged)",
